@@ -213,8 +213,14 @@ fn string_class(contents: &[Option<Kind>]) -> Vec<(Pos, Mv)> {
                         let promos: Vec<Option<Kind>> = if kind == Kind::P && t / 8 == last { vec![Some(Kind::Q), Some(Kind::R), Some(Kind::B), Some(Kind::N)] } else { vec![None] };
                         // first pair of king squares that makes the position valid and the move legal
                         let mut found: Option<Pos> = None;
-                        'kings: for &ok in &king_squares {
-                            for &ek in &king_squares {
+                        // home squares first, so that castling rights can be added below
+                        let (own_home, enemy_home) = if side == Side::W { (4u8, 60u8) } else { (60u8, 4u8) };
+                        let mut own_list = vec![own_home];
+                        own_list.extend(king_squares.iter().filter(|k| **k != own_home));
+                        let mut enemy_list = vec![enemy_home];
+                        enemy_list.extend(king_squares.iter().filter(|k| **k != enemy_home));
+                        'kings: for &ok in &own_list {
+                            for &ek in &enemy_list {
                                 let mut p = Pos::empty();
                                 p.stm = side;
                                 p.sq[f as usize] = Some((side, kind));
@@ -245,8 +251,34 @@ fn string_class(contents: &[Option<Kind>]) -> Vec<(Pos, Mv)> {
                             }
                         }
                         if let Some(p) = found {
-                            for pr in promos {
-                                out.push((p.clone(), Mv { from: f, to: t, promo: pr }));
+                            for pr in &promos {
+                                out.push((p.clone(), Mv { from: f, to: t, promo: *pr }));
+                            }
+                            // the same move while castling rights are held: rooks on the home
+                            // corners of a king that stands on its home square, rights set
+                            for who in [side, side.other()] {
+                                let (home, corners, flags) = if who == Side::W { (4u8, [7u8, 0u8], [crate::refchess::WK, crate::refchess::WQ]) } else { (60u8, [63u8, 56u8], [crate::refchess::BK, crate::refchess::BQ]) };
+                                if p.sq[home as usize] != Some((who, Kind::K)) {
+                                    continue;
+                                }
+                                let mut q = p.clone();
+                                let mut any = false;
+                                for i in 0..2 {
+                                    let c = corners[i];
+                                    if q.sq[c as usize].is_none() && c != t {
+                                        q.sq[c as usize] = Some((who, Kind::R));
+                                    }
+                                    if q.sq[c as usize] == Some((who, Kind::R)) {
+                                        q.castle[flags[i]] = true;
+                                        any = true;
+                                    }
+                                }
+                                let m0 = Mv { from: f, to: t, promo: promos[0] };
+                                if any && q.is_valid() && q.legal_moves().contains(&m0) {
+                                    for pr in &promos {
+                                        out.push((q.clone(), Mv { from: f, to: t, promo: *pr }));
+                                    }
+                                }
                             }
                         }
                     }
@@ -411,6 +443,8 @@ pub fn run(tier: &str, seed: u64, out: &str) {
             }
             if let Some(m) = ms.first() {
                 let p1 = p0.make(*m);
+                // a one-move list that is a prefix of the two-move list below
+                pool.push((command(start, &[*m]), p1.clone()));
                 if let Some(m2) = p1.legal_moves().last() {
                     pool.push((command(start, &[*m, *m2]), p1.make(*m2)));
                 }
@@ -495,7 +529,7 @@ pub fn run(tier: &str, seed: u64, out: &str) {
         }
         cov_parts.push(
             J::obj()
-                .set("part", "e: every move string by every kind of man: for each colour, each kind, each from-square and each to-square that kind can reach (pawns: pushes, double pushes, captures, all four promotions), onto an empty square and capturing each listed enemy kind, in a position with only the two kings added; sent as position fen ... moves <m>")
+                .set("part", "e: every move string by every kind of man: for each colour, each kind, each from-square and each to-square that kind can reach (pawns: pushes, double pushes, captures, all four promotions), onto an empty square and capturing each listed enemy kind, in a position with only the two kings added, and again with rooks on the home corners and the castling rights of the mover's side / of the other side set whenever that king stands on its home square; sent as position fen ... moves <m>")
                 .set("captured_kinds", contents.iter().map(|c| match c { None => "none".to_string(), Some(k) => format!("{:?}", k) }).collect::<Vec<_>>())
                 .set("cases", cases.len())
                 .set("by_king", by_kind(Kind::K))
